@@ -12,6 +12,7 @@ Record tcase := mkCase {
   tc_init : futs;                 (* initial states of the input futures *)
   tc_args : list nat;             (* children (multi) / watched futures (WaitIterator) *)
   tc_keys : option (list N);      (* dict keys (multi) / keyword names (WaitIterator) *)
+  tc_quiet : list qclass;         (* quiet_exceptions (multi, with_timeout) *)
   tc_events : list event
 }.
 
@@ -39,14 +40,16 @@ Definition o_task (k : task) : obs :=
   OTag (match k with TCopy => "copy" | TRemove => "remove" | TTimeout => "timeout" | TErrCb => "errcb" end).
 Definition o_loc (l : tloc) : obs := OTag (match l with InHeap => "heap" | InReady => "ready" | Gone => "gone" end).
 
-Definition o_multi_val (keys : option (list N)) (l : list N) : obs :=
+Definition o_pair (p : N * N) : obs := OList [o_n (fst p); o_n (snd p)].
+(* the combined future as the caller sees it: a list, or dict(zip(keys, result_list)) *)
+Definition o_multi_out (keys : option (list N)) (out : fstate (list N)) : obs :=
   match keys with
-  | None => OList (map o_n l)
-  | Some ks => OList (map (fun p => OList [o_n (fst p); o_n (snd p)]) (combine ks l))   (* dict(zip(keys, result_list)) *)
+  | None => o_fstate (fun l => OList (map o_n l)) out
+  | Some ks => o_fstate (fun l => OList (map o_pair l)) (option_map (dict_view ks) out)
   end.
 
 Definition obs_multi (keys : option (list N)) (w : mstate) : obs :=
-  OList [o_ins (m_ins w); o_fstate (o_multi_val keys) (m_out w); o_nat (m_log w); o_nat (m_err w);
+  OList [o_ins (m_ins w); o_multi_out keys (m_out w); o_nat (m_log w); o_nat (m_err w);
          OList (map o_nat (m_ready w))].
 Definition obs_chain (w : cstate) : obs :=
   OList [o_ins [c_a w; c_b w]; o_nat (c_ready w); o_nat (c_err w)].
@@ -79,9 +82,9 @@ Definition wait_args (c : tcase) : list (N * nat) :=
 Definition run_case (c : tcase) : obs :=
   if negb (wf_case c) then OTag "BadCase" else
   match tc_kind c with
-  | KMulti => obs_multi (tc_keys c) (m_run (m_create (tc_init c) (tc_args c)) (tc_events c))
+  | KMulti => obs_multi (tc_keys c) (m_run (m_create (tc_quiet c) (tc_init c) (tc_args c)) (tc_events c))
   | KChain => obs_chain (c_run (c_create (nth 0 (tc_init c) None) (nth 1 (tc_init c) None)) (tc_events c))
-  | KTimeout => obs_timeout (t_run (t_create (nth 0 (tc_init c) None)) (tc_events c))
+  | KTimeout => obs_timeout (t_run (t_create (tc_quiet c) (nth 0 (tc_init c) None)) (tc_events c))
   | KWait => obs_wait (w_run (w_create (tc_init c) (wait_args c)) (tc_events c))
   end.
 
@@ -99,17 +102,23 @@ Definition has_cancel (es : list event) : bool := existsb (fun e => match e with
 Definition o_pending : obs := OTag "pending".
 Definition o_cancelled : obs := OTag "cancelled".
 
+Definition child_outs_or_nil (ins : futs) (cs : list nat) : list (outcome N) :=
+  match child_outs ins cs with Some os => os | None => [] end.
 Definition check_multi (c : tcase) (o : obs) : bool :=
   let ins := final_ins (tc_init c) (tc_events c) in
   let out := onth o 1 in
   let quiet := obs_eqb (onth o 4) (OList []) in
-  let cancel_ok := has_cancel (tc_events c) && obs_eqb out o_cancelled in
+  let cancelled := has_cancel (tc_events c) in
+  let cancel_ok := cancelled && obs_eqb out o_cancelled in
   obs_eqb (onth o 0) (o_ins ins) && is0 (onth o 3) &&
   match expected ins (tc_args c) with
   | Some e =>
-      let want := o_fstate (o_multi_val (tc_keys c)) (Some e) in
-      obs_eqb out want || cancel_ok || (negb quiet && obs_eqb out o_pending)
-  | None => obs_eqb out o_pending || cancel_ok
+      let want := o_multi_out (tc_keys c) (Some e) in
+      (* the right outcome; later failures are logged unless quiet (exact when the consumer never cancels) *)
+      (obs_eqb out want &&
+       (cancelled || obs_eqb (onth o 2) (o_nat (extra_logged (tc_quiet c) (child_outs_or_nil ins (tc_args c))))))
+      || cancel_ok || (negb quiet && obs_eqb out o_pending && is0 (onth o 2))
+  | None => (obs_eqb out o_pending && is0 (onth o 2)) || cancel_ok
   end.
 
 Definition check_chain (c : tcase) (o : obs) : bool :=
